@@ -25,10 +25,14 @@ static void c01_mutate_and_send(Buf *last, int started) {
     b_free(&m);
 }
 static void c04_policy_rounds(Buf *b, int rounds);
+static void scen_c04(int histories, int rounds);
 static void scen_c01(int histories, int prefix, int stream) {
     g_gen_host_rng_ok = 1;
     Buf b = {0}, last = {0}; World w; memset(&w, 0, sizeof w);
     for (int h = 0; h < histories; h++) {
+        /* a whole authorization history of C04 (HMAC, bound, salted sessions, XOR and AES parameter encryption, two-session commands,
+           policy sessions) with every command and response framed */
+        if (h % 4 == 1) { g_locality = 0; g_trace_x = 1; scen_c04(1, 24); g_trace_x = 0; }
         tr("hist %d profile=%d", h, h % 3); w_reset(&w); g_locality = 0;
         tpm2_fresh(h % 3 == 0 ? NULL : (h % 3 == 1 ? PROFILE_DEFAULT_V1 : PROFILE_CUSTOM));
         int started = 1;
